@@ -1,6 +1,6 @@
 import D2P.Props.C12Ranges
 /-!
-# C10 / C06 at run granularity (corollaries of the run-string machine, html off)
+# C10 / C06 at run granularity (corollaries of the run machine, both html modes)
 
 * `C10_link_one_string`: a hyperlink contributes exactly ONE run string — `<a href="TARGET">TEXT</a>`
   (or the bare text when the target does not resolve) — whatever it contains, and the string in
@@ -39,36 +39,43 @@ theorem C10_link_one_string (cfg : PartCfg) (k : Nat) (links : Xml → M Str) (x
 /-- a text node: only text, no boundary -/
 def isTextNode (x : Xml) : Prop := tagMember x.ptag = some "TEXT" ∧ x.kids = []
 
+/-- the text a text node contributes: escaped when html is exported -/
+def nodeText (cfg : PartCfg) (x : Xml) : Str := if cfg.html then escapeHtml (x.text?.getD []) else x.text?.getD []
+
 theorem runsOf_text (cfg : PartCfg) (k : Nat) (links : Xml → M Str) (x : Xml) (hx : isTextNode x) (he : x.isElem = true) (st : RS) :
-    runsOf cfg k links x st = .ok { st with r := st.r.txt (x.text?.getD []) } := by
+    runsOf cfg k links x st = .ok { st with r := st.r.txt (nodeText cfg x) } := by
   cases x with
   | comment _ _ => simp [Xml.isElem] at he
   | pi _ => simp [Xml.isElem] at he
   | elem i p t m a tx tl ks =>
     obtain ⟨hm, hk⟩ := hx
     simp only [Xml.kids] at hk; subst hk
-    simp only [runsOf, openRuns, hm, pure, Except.pure, ok_bind, if_true, runsOfL, closeRuns]
+    simp only [runsOf, openRuns, hm, pure, Except.pure, ok_bind, if_true, runsOfL, closeRuns, nodeText]
     rfl
 
 theorem runsOfL_texts (cfg : PartCfg) (k : Nat) (links : Xml → M Str) : ∀ (ts : List Xml), (∀ x ∈ ts, isTextNode x ∧ x.isElem = true) →
-    ∀ (st : RS), runsOfL cfg k links ts st = .ok { st with r := (st.r.1, st.r.2 ++ sjoin (ts.map fun x => x.text?.getD [])) }
+    ∀ (st : RS), runsOfL cfg k links ts st =
+      .ok { st with r := (st.r.1, { st.r.2 with text := st.r.2.text ++ sjoin (ts.map (nodeText cfg)) }) }
   | [], _, st => by simp [runsOfL, sjoin, pure, Except.pure]
   | x :: xs, h, st => by
     obtain ⟨hx, he⟩ := h x (by simp)
     simp only [runsOfL, runsOf_text cfg k links x hx he, ok_bind, runsOfL_texts cfg k links xs (fun y hy => h y (by simp [hy]))]
     simp [RState.txt, sjoin, List.append_assoc]
 
-/-- **one run, any number of text pieces: one string** -/
+/-- **one run, any number of text pieces: one run string**, tagged with the run's recognised
+formatting and nothing else -/
 theorem C06_texts_one_string (cfg : PartCfg) (k : Nat) (links : Xml → M Str)
     (i : Nat) (p : Option Str) (t : QName) (m : NsMap) (a : List (QName × Str)) (tx tl : Option Str) (ts : List Xml)
     (hr : tagMember (Xml.elem i p t m a tx tl ts).ptag = some "RUN") (hts : ∀ x ∈ ts, isTextNode x ∧ x.isElem = true)
-    (st : RS) (hb : st.r.2 = []) :
+    (f : List Str) (hf : runFormatting cfg.html (.elem i p t m a tx tl ts) = .ok f)
+    (st : RS) (hb : st.r.2.text = []) :
     ∃ st', runsOf cfg k links (.elem i p t m a tx tl ts) st = .ok st' ∧
-      st'.r = (st.r.1 ++ ne (sjoin (ts.map fun x => x.text?.getD [])), []) ∧ st'.ranges = st.ranges := by
-  have hcl : ∀ z : RS, closeRuns (Xml.elem i p t m a tx tl ts) z = { z with r := z.r.newRun } := by
+      st'.r = (st.r.1 ++ keep { style := f, text := sjoin (ts.map (nodeText cfg)) }, { style := [], text := [] }) ∧
+      st'.ranges = st.ranges := by
+  have hcl : ∀ z : RS, closeRuns (Xml.elem i p t m a tx tl ts) z = { z with r := z.r.newRun [] } := by
     intro z; unfold closeRuns; rw [hr]; rfl
-  refine ⟨{ r := (st.r.1 ++ ne (sjoin (ts.map fun x => x.text?.getD [])), []), ranges := st.ranges }, ?_, rfl, rfl⟩
-  simp only [runsOf, openRuns, hr, pure, Except.pure, ok_bind, if_true, runsOfL_texts cfg k links ts hts, hcl]
-  simp [RState.newRun, hb, ne]
+  refine ⟨{ r := (st.r.1 ++ keep { style := f, text := sjoin (ts.map (nodeText cfg)) }, { style := [], text := [] }), ranges := st.ranges }, ?_, rfl, rfl⟩
+  simp only [runsOf, openRuns, hr, hf, pure, Except.pure, ok_bind, if_true, runsOfL_texts cfg k links ts hts, hcl]
+  simp [RState.newRun, hb, keep]
 
 end D2P
